@@ -913,7 +913,11 @@ class PersistentDict(collections.abc.MutableMapping):
 
     def reload(self):
         """Force a reload from disk, overwriting current cache"""
-        self._cache = dict(self._func.items())
+        # Update in place: the finalizer registered in __init__ holds a reference
+        # to this very dict, so rebinding would leave it syncing a stale copy.
+        fresh = dict(self._func.items())
+        self._cache.clear()
+        self._cache.update(fresh)
 
 
 SEARCH_PATH = []
